@@ -216,6 +216,10 @@ func walkAllCallback(p *core.Program, fn *core.FuncRef, cb *ast.FuncLit) string 
 	return ""
 }
 
+// checkWatermarkPoll interprets the whole of Poll for end of stream reached / not reached × the walked key's time
+// <, =, > the watermark. The walk over the stored keys is one abstract iteration (Visit): the callback runs once on
+// a symbolic item, in the state Poll is in when it starts the walk — so it does not matter whether the two modes are
+// two walks in two branches or one walk with a flag.
 func checkWatermarkPoll(c *core.Ctx) {
 	p := c.Prog
 	fn := p.Func("execution", "(*WatermarkTrigger).Poll")
@@ -225,20 +229,27 @@ func checkWatermarkPoll(c *core.Ctx) {
 		return
 	}
 	c.SawFunc(key)
-	info := fn.Info()
-	eos, notEos, ok := eosBranches(p, fn)
-	if !ok || eos == nil || notEos == nil {
-		c.Unknown("ABS8", key, fn.Decl.Pos(), "no branch on endOfStreamReached with both arms")
-		return
+	recvName := "c"
+	if fn.Decl.Recv != nil && len(fn.Decl.Recv.List) == 1 && len(fn.Decl.Recv.List[0].Names) == 1 {
+		recvName = fn.Decl.Recv.List[0].Names[0].Name
 	}
-	cbs := ascendCallbacks(info, notEos)
-	if len(cbs) != 1 {
-		c.Unknown("ABS8", key+"/before end of stream", fn.Decl.Pos(), "expected one Ascend walk")
-	} else {
+	slice := recvName + ".outputKeysSlice"
+	delBad, resBad := "", ""
+	for _, eos := range []bool{false, true} {
 		for _, rel := range []absint.Rel{absint.LT, absint.EQ, absint.GT} {
-			rel := rel
+			eos, rel := eos, rel
 			in := newInterp(p, fn)
 			in.Hooks.Assert = assertOK
+			in.Hooks.Field = boolFieldHook(map[string]absint.Val{"endOfStreamReached": absint.Bool(eos)})
+			in.Hooks.Loop = func(st *absint.State, loop ast.Stmt) *absint.LoopSpec {
+				return &absint.LoopSpec{Cases: []string{"FIRED"}, MaxIter: 1, MinIter: 1, RefStep: func(ref, cs string) string { return "" }}
+			}
+			in.Hooks.Visit = func(st *absint.State, callee string, recv absint.Val, args []absint.Val) (int, []absint.Val, bool) {
+				if strings.HasSuffix(callee, "BTree).Ascend") && len(args) == 1 {
+					return 0, []absint.Val{absint.S("ITEM")}, true
+				}
+				return 0, nil, false
+			}
 			in.Hooks.Call = func(st *absint.State, call *ast.CallExpr, callee string, recv absint.Val, args []absint.Val) (absint.Val, bool) {
 				// key time vs watermark
 				timeIsRecv := strings.HasSuffix(recv2(recv), ".Time")
@@ -254,70 +265,79 @@ func checkWatermarkPoll(c *core.Ctx) {
 				case "time.Time.Equal":
 					return absint.Bool(r == absint.EQ), true
 				}
+				if msRemove.MatchString(callee) && len(args) == 1 {
+					st.Emit("DELETE", call.Pos(), args[0])
+					return absint.S("deleted"), true
+				}
 				return nil, false
 			}
-			outs, err := runLit(in, cbs[0], nil, "")
-			ckey := fmt.Sprintf("%s/key time %s watermark", key, rel)
+			outs, err := runDecl(in, fn, nil, "")
+			ckey := fmt.Sprintf("%s/end of stream=%v/key time %s watermark", key, eos, rel)
 			if err != nil {
-				c.Unknown("ABS8", ckey, cbs[0].Pos(), err.Error())
+				c.Unknown("ABS8", ckey, fn.Decl.Pos(), err.Error())
 				continue
 			}
 			bad := ""
+			due := eos || rel != absint.GT
 			for _, o := range outs {
-				app := 0
+				if o.Kind == "panic" {
+					continue // the failed type assertion, cut by assertOK elsewhere
+				}
+				app, visited := 0, 0
+				var cont absint.Val
+				firstStore := ""
 				for _, e := range o.Events {
-					if strings.HasPrefix(e.Name, "append") {
+					switch {
+					case strings.HasPrefix(e.Name, "append "+slice):
 						app++
+					case strings.HasPrefix(e.Name, "visited "):
+						visited++
+						if len(e.Args) == 1 {
+							cont = e.Args[0]
+						}
+					case strings.HasPrefix(e.Name, "store "+slice) && firstStore == "" && len(e.Args) == 1:
+						firstStore = e.Args[0].Canon()
+					case e.Name == "DELETE":
+						// the fired key is deleted under the key it was stored with: (its time field, the group key)
+						gk, tm := o.Field(e.Args[0], "GroupKey"), o.Field(e.Args[0], "Time")
+						if gk == nil || tm == nil || tm.Canon() != gk.Canon()+"["+recvName+".timeFieldKeyIndex].Time" || !strings.Contains(gk.Canon(), "outputKeysSlice") {
+							delBad = "a fired key is deleted as " + o.Show(e.Args[0])
+						}
 					}
 				}
-				due := rel != absint.GT
-				if o.Kind != "return" {
+				switch {
+				case o.Kind != "return" || len(o.Values) != 1:
 					bad = "unexpected " + o.String()
-				} else if due && (app != 1 || !absint.IsTrue(o.Values[0])) {
-					bad = "a key with time ≤ watermark must fire and the walk continue: " + o.String()
-				} else if !due && (app != 0 || !absint.IsFalse(o.Values[0])) {
-					bad = "a key with time > watermark must not fire and ends the walk: " + o.String()
+				case visited != 1:
+					bad = fmt.Sprintf("the stored keys are walked %d times", visited)
+				case due && (app != 1 || !absint.IsTrue(cont)):
+					bad = "a key that is due (end of stream, or time ≤ watermark) must fire and the walk continue: " + o.String()
+				case !due && (app != 0 || !absint.IsFalse(cont)):
+					bad = "a key with time > watermark must not fire before the end of the stream, and ends the walk: " + o.String()
+				}
+				if due {
+					dels := 0
+					for _, e := range o.Events {
+						if e.Name == "DELETE" {
+							dels++
+						}
+					}
+					if dels == 0 {
+						delBad = "the keys that fired are not deleted from timeKeys: they would fire again on every watermark"
+					}
+				}
+				if !strings.HasSuffix(firstStore, "[:0]") && !strings.HasSuffix(firstStore, "[:0:0]") && firstStore != "nil" {
+					resBad = "Poll must clear outputKeysSlice first (first store: " + firstStore + ")"
+				}
+				if len(o.Values) == 1 && !strings.Contains(o.Values[0].Canon(), "outputKeysSlice") {
+					resBad = "Poll must return the collected keys; it returns " + o.Show(o.Values[0])
 				}
 			}
-			c.Decide(bad == "" && len(outs) > 0, "ABS8", ckey, cbs[0].Pos(), len(outs), "fires iff time ≤ watermark", bad)
+			c.Decide(bad == "" && len(outs) > 0, "ABS8", ckey, fn.Decl.Pos(), len(outs), "fires iff at end of stream or time ≤ watermark", bad)
 		}
 	}
-	cbs = ascendCallbacks(info, eos)
-	if len(cbs) != 1 {
-		c.Unknown("ABS8", key+"/at end of stream", fn.Decl.Pos(), "expected one Ascend walk")
-	} else {
-		why := walkAllCallback(p, fn, cbs[0])
-		c.Decide(why == "", "ABS8", key+"/at end of stream", cbs[0].Pos(), 1, "every remaining key fires", why)
-	}
-	// fired keys are deleted: a loop over the output slice calling Delete with the same element
-	del := false
-	ast.Inspect(fn.Decl.Body, func(n ast.Node) bool {
-		rs, ok := n.(*ast.RangeStmt)
-		if !ok || !strings.HasSuffix(core.ExprStr(rs.X), "outputKeysSlice") {
-			return true
-		}
-		ast.Inspect(rs.Body, func(m ast.Node) bool {
-			if call, ok := m.(*ast.CallExpr); ok && msRemove.MatchString(p.CalleeName(info, call)) {
-				s := core.ExprStr(call)
-				idx := core.ExprStr(rs.Key)
-				if strings.Contains(s, "outputKeysSlice["+idx+"]") && strings.Contains(s, "timeFieldKeyIndex].Time") {
-					del = true
-				}
-			}
-			return true
-		})
-		return true
-	})
-	c.Decide(del, "ABS8", key+"/fired keys deleted", fn.Decl.Pos(), 1, "each fired key is removed with the key (time field, group key) it was stored under", "the keys that fired are not deleted from timeKeys with the key they were inserted under: they would fire again on every watermark")
-	// the returned slice is the collected one and is reset first
-	okRet := false
-	for _, st := range fn.Decl.Body.List {
-		if rs, ok := st.(*ast.ReturnStmt); ok && len(rs.Results) == 1 && strings.HasSuffix(core.ExprStr(rs.Results[0]), "outputKeysSlice") {
-			okRet = true
-		}
-	}
-	reset := len(fn.Decl.Body.List) > 0 && strings.Contains(core.ExprStr(fn.Decl.Body.List[0]), "outputKeysSlice[:0]")
-	c.Decide(okRet && reset, "ABS8", key+"/result", fn.Decl.Pos(), 1, "returns the freshly collected keys", "Poll must clear outputKeysSlice first and return it")
+	c.Decide(delBad == "", "ABS8", key+"/fired keys deleted", fn.Decl.Pos(), 1, "each fired key is removed with the key (time field, group key) it was stored under", "the keys that fired are not deleted from timeKeys with the key they were inserted under: "+delBad)
+	c.Decide(resBad == "", "ABS8", key+"/result", fn.Decl.Pos(), 1, "returns the freshly collected keys", resBad)
 }
 
 func recv2(v absint.Val) string {
